@@ -171,13 +171,19 @@ def gen_edit_doc(rnd):
             tail = ps
             first_starred = True
         ret = rnd.choice(["", "", " -> None", " -> int", " -> dict[str, int]", " -> \"T\""])
-        shape = rnd.choice(["one", "one", "one", "multi", "multi_trailing", "space", "comment", "empty_multi"])
+        shape = rnd.choice(["one", "one", "one", "multi", "multi_trailing", "space", "comment", "empty_multi", "multi_comment"])
         if shape == "one" or (shape in ("multi", "multi_trailing") and not ps):
             out.append("%s%s %s(%s)%s:" % (ind, kw, name, ", ".join(ps), ret))
         elif shape == "space":
             out.append("%s%s %s( %s )%s :" % (ind, kw, name, ", ".join(ps), ret))
         elif shape == "comment":
             out.append("%s%s %s(%s)%s:  # trailing (comment):" % (ind, kw, name, ", ".join(ps), ret))
+        elif shape == "multi_comment" and ps:
+            # a comment (or only blanks) behind the opening parenthesis of a multi-line signature
+            out.append("%s%s %s(%s\n%s    %s\n%s)%s:" % (ind, kw, name, rnd.choice(["  # noqa: ANN002", " # type: ignore", "  "]), ind,
+                                                         (",\n" + ind + "    ").join(ps), ind, ret))
+        elif shape == "multi_comment":
+            out.append("%s%s %s(  # nothing yet\n%s)%s:" % (ind, kw, name, ind, ret))
         elif shape == "empty_multi":
             out.append("%s%s %s(\n%s)%s:" % (ind, kw, name, ind, ret))
             ps = []
